@@ -329,6 +329,8 @@ func runCase(t *testing.T, tr *hx.Trace, id int, r *rand.Rand, script []string) 
 				case x < 4:
 				case x < 5:
 					g.learnInjected(do(g.imutesLine(p)))
+				case x < 6:
+					do(fmt.Sprintf("cmutes 0 %d %s", g.now, p))
 				default:
 					do(fmt.Sprintf("mutes 0 %d %s", g.now, p))
 				}
